@@ -611,6 +611,7 @@ pub fn check_quads(v: &QuadVal, m: &QuadModel, plan_seed: u64, o: QuadOpts, ctx:
         }
     }
     pos.extend([n + 2, 1usize << 32, 1usize << 43, usize::MAX - 1, usize::MAX]);
+    pos.extend(crate::util::wrap_positions(n));
     pos.sort_unstable();
     pos.dedup();
 
